@@ -87,7 +87,7 @@ def tlc_graph(module, wd, constants, invariants, workers=6, timeout=1500, name="
 # C19
 # ---------------------------------------------------------------------------------------------
 C19_TIER = {
-    "quick": dict(MaxIdx=3, MaxTerm=3, MaxLApp=2, depth=3, random=4000, rlen=10, max_runs=300000),
+    "quick": dict(MaxIdx=3, MaxTerm=3, MaxLApp=2, depth=3, random=2500, rlen=10, max_runs=300000),
     "thorough": dict(MaxIdx=4, MaxTerm=3, MaxLApp=2, depth=3, random=60000, rlen=12, max_runs=3000000),
 }
 
@@ -247,8 +247,8 @@ def replay_c19(path):
 # C20
 # ---------------------------------------------------------------------------------------------
 C20_TIER = {
-    "quick": dict(MaxIdx=3, NVal=2, walks=70, wlen=30, dfs_depth=1, reopen_pct=20),
-    "thorough": dict(MaxIdx=4, NVal=2, walks=1500, wlen=40, dfs_depth=2, reopen_pct=20),
+    "quick": dict(MaxIdx=3, NVal=2, walks=40, wlen=30, dfs_depth=1, reopen_pct=15, cp_walks=10, cp_len=8),
+    "thorough": dict(MaxIdx=4, NVal=2, walks=1500, wlen=40, dfs_depth=2, reopen_pct=20, cp_walks=120, cp_len=10),
 }
 
 
@@ -399,6 +399,167 @@ def c20_violations(res):
     return viol
 
 
+def _load_ls_graph(gpath):
+    states, edges = {}, {}
+    with open(gpath) as f:
+        for line in f:
+            if line.startswith("S "):
+                r = json.loads(line[2:])
+                states[json.dumps(r["k"])] = r
+            elif line.startswith("E "):
+                r = json.loads(line[2:])
+                edges.setdefault(json.dumps(r["f"]), []).append(r)
+    return states, edges
+
+
+def _inorder_edges(key, outs):
+    """edges a log-structured user makes: appends at the tail in index order, replace_range with an ascending batch
+    starting at `from`, any truncate / purge / reset / flush"""
+    ents = json.loads(key)[0]
+    last = max([i + 1 for i, v in enumerate(ents) if v], default=0)
+    res = []
+    for e in outs:
+        o = e["op"]
+        if o["k"] == "persist":
+            idx = [x["i"] for x in o["es"]]
+            if idx == list(range(last + 1, last + 1 + len(idx))):
+                res.append(e)
+        elif o["k"] == "replace":
+            idx = [x["i"] for x in o["es"]]
+            if o["from"] <= last + 1 and idx == list(range(o["from"], o["from"] + len(idx))):
+                res.append(e)
+        elif o["k"] == "truncate":
+            if o["from"] <= last + 1:
+                res.append(e)
+        else:
+            res.append(e)
+    return res
+
+
+def c20_file_crash_points(wd, T, gpath, nwalks, wlen):
+    """File log store: crash points INSIDE store calls. The system calls of scripted in-order operation sequences
+    (strace) are replayed on FsModel.tla by TLC (MetaStoreTrace.tla), which emits the process-crash image at every call
+    boundary; each image is loaded by a fresh FileLogStore and must equal the LogStore.tla state before or after the
+    operation in flight (for a two-entry persist also the state with only its first entry)."""
+    import random
+    import store_fs
+    states, edges = _load_ls_graph(gpath)
+    init = next(k for k in states if not any(json.loads(k)[0]) and json.loads(k)[1] == [0, 0])
+    rng = random.Random(dv.seed() * 7919 + 13)
+    runs, events_all = [], []
+    for w in range(nwalks):
+        key, path = init, []
+        for _ in range(wlen):
+            cand = _inorder_edges(key, sorted(edges.get(key, []), key=lambda e: json.dumps(e["op"], sort_keys=True)))
+            by_kind = {}
+            for e in cand:
+                by_kind.setdefault(e["op"]["k"], []).append(e)
+            kinds = [k for k in ["persist", "persist", "persist", "replace", "replace", "purge", "truncate", "reset", "flush"] if k in by_kind]
+            e = rng.choice(by_kind[rng.choice(kinds)])
+            path.append((key, e))
+            key = json.dumps(e["t"])
+        d = os.path.join(wd, "fcp", "w%d" % w)
+        os.makedirs(d)
+        tr = os.path.join(wd, "fcp-strace-%d.txt" % w)
+        ops = [e["op"] for _, e in path]
+        dv.run(store_fs.strace_cmd(tr, [binp(), "logstore", "script", "--engine", "file", "--dir", d, "--ops", json.dumps(ops)]),
+               timeout=600)
+        ev = store_fs.parse(tr, os.path.join(d, "logs"))
+        if sum(1 for x in ev if x["e"] == "mark") != 2 * len(ops):
+            raise dv.ToolError("strace trace of the log store script lacks marks")
+        events_all.append({"e": "newrun"})
+        events_all.extend(ev)
+        runs.append(path)
+        os.remove(tr)
+    tp = os.path.join(wd, "fcp-events.ndjson")
+    with open(tp, "w") as f:
+        for e in events_all:
+            f.write(json.dumps(e) + "\n")
+    rc, out, dt = dv.tlc("MetaStoreTrace", os.path.join(dv.SPEC, "MetaStoreTrace.cfg"), wd, workers=1, env={"TRACE": tp},
+                         timeout=1500, java_opts="-Xss1g -Xmx8g")
+    if '<<"DONE", %d>>' % len(events_all) not in out:
+        raise dv.ToolError("trace judge did not reach the end of the log store trace:\n" + out[-3000:])
+    images = [json.loads(_unescape(m.group(1))) for m in re.finditer(r'^<<"IMAGE", "(.*)">>$', out, re.M)]
+    images = [im for im in images if im["kind"] == "process"]
+    dirs = []
+    for n, im in enumerate(images):
+        files = im["img"] if isinstance(im["img"], dict) else {}
+        dd = os.path.join(wd, "fcp-img", str(n))
+        os.makedirs(os.path.join(dd, "logs"))
+        for name, content in files.items():
+            with open(os.path.join(dd, "logs", name), "wb") as f:
+                f.write(bytes(content))
+        im["dir"] = dd
+        dirs.append(dd)
+    lst, outp = os.path.join(wd, "fcp.list"), os.path.join(wd, "fcp-load.ndjson")
+    with open(lst, "w") as f:
+        f.write("\n".join(dirs) + "\n")
+    dv.run([binp(), "logstore", "load", "--engine", "file", "--max-idx", str(T["MaxIdx"]), "--list", lst, "--out", outp], timeout=1200)
+    loaded = {}
+    with open(outp) as f:
+        for line in f:
+            r = json.loads(line)
+            loaded[r["dir"]] = r
+
+    def content_of(key):
+        return [str(v) for v in states[key]["obs"]["entry"]]
+
+    def target(key, op):
+        for e in edges.get(key, []):
+            if e["op"] == op:
+                return json.dumps(e["t"])
+        return None
+
+    viol, inside = [], 0
+    for im in images:
+        path = runs[im["run"] - 1]
+        k = im["op"]                      # 1-based op number: in flight (during) or last completed (after)
+        r = loaded[im["dir"]]
+        if k == 0:
+            continue
+        before_key, e = path[k - 1]
+        after_key = json.dumps(e["t"])
+        op = e["op"]
+        allowed = {after_key: "after"}
+        if im["phase"] == "during":
+            inside += 1
+            allowed[before_key] = "before"
+            if op["k"] == "persist" and len(op["es"]) == 2:
+                t1 = target(before_key, {"k": "persist", "es": op["es"][:1]})
+                if t1:
+                    allowed[t1] = "first-entry-only"
+        got = r.get("entry")
+        ok = (not r.get("err")) and any(got == content_of(a) and len(r["all"]) == sum(1 for v in content_of(a) if v != "0")
+                                        for a in allowed)
+        if ok:
+            continue
+        # cause from the observed contents
+        cause = "other"
+        if not r.get("err") and im["phase"] == "during":
+            if op["k"] == "replace":
+                tt = target(before_key, {"k": "truncate", "from": op["from"]})
+                if tt and got == content_of(tt):
+                    cause = "replace-range-truncation-visible-without-new-entries"
+                else:
+                    t2 = [target(tt, {"k": "persist", "es": op["es"][:n]}) for n in range(1, len(op["es"]))] if tt else []
+                    if any(x and got == content_of(x) for x in t2):
+                        cause = "replace-range-truncation-visible-with-part-of-new-entries"
+            elif op["k"] == "purge":
+                aft = content_of(after_key)
+                kept = [i for i, v in enumerate(aft) if v != "0"]
+                have = [i for i, v in enumerate(got) if v != "0"]
+                if all(got[i] == aft[i] for i in have) and have == kept[:len(have)] and len(have) < len(kept):
+                    cause = "purge-rewrites-file-in-place-kept-entries-missing"
+        viol.append({"p": "C20", "m": "File.CrashInsideCall", "cause": cause,
+                     "fail": {"engine": "file", "phase": "crash-inside-" + op["k"] if im["phase"] == "during" else "crash-after-" + op["k"],
+                              "path": [x[1]["op"] for x in path[:k]], "step": k - 1,
+                              "mismatches": [{"q": "entries", "arg": "after event %d" % im["at"],
+                                              "exp": " | ".join("%s:%s" % (allowed[a], content_of(a)) for a in allowed),
+                                              "got": str(got if not r.get("err") else r.get("err"))}],
+                              "exp_content": []}})
+    return dict(viol=viol, images=len(images), inside=inside, walks=nwalks, wlen=wlen)
+
+
 def check_c20(tier):
     t0 = time.time()
     T = C20_TIER[tier]
@@ -409,6 +570,8 @@ def check_c20(tier):
                                       "--reopen-pct", str(T["reopen_pct"]), "--seed", str(dv.seed()),
                                       "--threads", str(THREADS)])
     viol = c20_violations(res)
+    fcp = c20_file_crash_points(wd, T, gpath, T["cp_walks"], T["cp_len"])
+    viol += fcp["viol"]
     known_hits, new = dv.classify("C20", viol, known=known())
     replay_paths = []
     seen = set()
@@ -450,6 +613,8 @@ def check_c20(tier):
         "graph_states": ns, "graph_edges": ne, "tlc_secs": st["secs"],
         "walks_per_engine": T["walks"], "walk_length": T["wlen"], "dfs_depth": T["dfs_depth"],
         "steps_executed": res["steps"], "reopen_checks": res["reopens"],
+        "file_crash_points_inside_calls": {"walks": fcp["walks"], "walk_length": fcp["wlen"], "images_loaded": fcp["images"],
+                                           "images_inside_a_call": fcp["inside"]},
         "graph_edges_covered_by_walks": res["edges_covered_by_walks"],
         "failing_observations_by_signature": res["signature_counts"],
         "failing_by_cause": causes, "shortest_failing_by_cause": first,
@@ -459,8 +624,9 @@ def check_c20(tier):
     dv.write_evidence("C20", tier, "model_checking", cov,
                       ["reference = LogStore.tla (map index -> entry, purge boundary of the last purge, last index = highest "
                        "index present); TLC checks TypeOK and AnswersConsistent on the whole graph",
-                       "process-crash image = copy of the data directory at a step boundary (no crash points inside one "
-                       "store call: atomicity of replace_range is only observed at call boundaries)",
+                       "process-crash image = copy of the data directory at a step boundary; crash points inside a store "
+                       "call only for FileLogStore (system-call trace replayed on FsModel.tla by TLC, in-order operation "
+                       "sequences); RocksDB write batches are trusted to be atomic",
                        "a walk stops at the first step whose live entries differ from the reference; mismatches of "
                        "last_index / purge boundary alone do not stop it (they do not change the contents)",
                        "purge boundaries only move forward; power-loss images are not built for C20"],
@@ -723,7 +889,7 @@ def replay_c21(path):
 # ---------------------------------------------------------------------------------------------
 C18_AS_IMPL = ["DurableIndexNeverLowered", "PendingMaxNotLowered"]
 C18_TIER = {
-    "quick": dict(MaxIdx=4, MaxTerm=3, MaxOps=4, file_sample=0, rocksdb_sample=80),
+    "quick": dict(MaxIdx=4, MaxTerm=3, MaxOps=4, file_sample=0, rocksdb_sample=50),
     "thorough": dict(MaxIdx=4, MaxTerm=3, MaxOps=5, file_sample=0, rocksdb_sample=1200),
 }
 C18_INV = ["C18_GapFree", "C18_DurableKept", "C18_FlushKept", "C18_NoResurrection"]
